@@ -302,6 +302,7 @@ def run(prog, chk):
     text_field_rules(prog, chk, "R6", "R7")
     precision_rule(prog, chk, "R9")
     column_advance_rule(prog, chk, "R11")
+    name_line_rule(prog, chk, "R12")
 
     r10 = chk.rule("R10-surrogate-range-tests", "the writer's tests for surrogate pairs (where a folded line may be split) cut the code "
                    "units exactly at the boundaries of the lead and trail ranges", floor=8)
@@ -315,6 +316,16 @@ def run(prog, chk):
     if memrules.stale_state_copies(prog, r8, "ciffile.c", "last_column",
                                    "the room left on the line is judged from a column the output has already moved on from") < 4:
         raise Broken("fewer than 4 locals computed from last_column in ciffile.c")
+
+
+def name_line_rule(prog, chk, rid):
+    from .. import writerrules
+    rr = chk.rule(rid + "-name-line-budget", "the literal characters a format puts on the line of a block / frame code or data name "
+                  "fit in what the name validator leaves of the line (5 for codes, 0 for data names), unless that arm of the format "
+                  "is selected under a length test that makes room: the longest valid name is not written as an over-length line",
+                  floor=3)
+    if writerrules.name_line_budget(prog, rr) < 3:
+        raise Broken("fewer than 3 name emissions (container headers, loop header names) found in ciffile.c")
 
 
 def column_advance_rule(prog, chk, rid):
